@@ -40,3 +40,51 @@ pub fn generated_domain_router_inserts(inputs: &[String]) -> Vec<(String, u32)> 
         .collect();
     crate::compiler::codegen::verif_domain_router_inserts(&guards)
 }
+
+/// Append one line to the file named by `PAVEX_VERIF_DUMP`, if one was requested.
+pub(crate) fn dump_line(line: String) {
+    use std::io::Write;
+    let Ok(path) = std::env::var("PAVEX_VERIF_DUMP") else {
+        return;
+    };
+    if let Ok(mut f) = std::fs::OpenOptions::new()
+        .create(true)
+        .append(true)
+        .open(path)
+    {
+        let _ = f.write_all(format!("{line}\n").as_bytes());
+    }
+}
+
+/// JSON rendering of what `RequestHandlerPipeline::new` collected for one stage (step 4):
+/// per middleware, its inputs as `[type, taken by reference, cloning allowed, Copy]`.
+pub(crate) fn stage_inputs_json(inputs: &[Vec<(String, bool, bool, bool)>]) -> String {
+    let per_mw: Vec<String> = inputs
+        .iter()
+        .map(|mw| {
+            let items: Vec<String> = mw
+                .iter()
+                .map(|(ty, by_ref, cloneable, copy)| {
+                    format!("[{},{by_ref},{cloneable},{copy}]", json_string(ty))
+                })
+                .collect();
+            format!("[{}]", items.join(","))
+        })
+        .collect();
+    format!("[{}]", per_mw.join(","))
+}
+
+/// A JSON string literal.
+pub(crate) fn json_string(s: &str) -> String {
+    let mut o = String::from("\"");
+    for c in s.chars() {
+        match c {
+            '"' => o.push_str("\\\""),
+            '\\' => o.push_str("\\\\"),
+            c if (c as u32) < 0x20 => o.push(' '),
+            c => o.push(c),
+        }
+    }
+    o.push('"');
+    o
+}
